@@ -94,7 +94,7 @@ func collidingNamesUnitFull(only string) Unit {
 	return Unit{Name: "colliding-definition-names", Harness: "pkg/generator:HarnessC10Names", Layer: "L3", Only: only,
 		Desc:   "three (thorough: four) definitions whose names normalise to ONE Go identifier (line-ref, lineRef, line_ref, LineRef), each integer, string, boolean or one of two string enums differing in one member, in every combination (equal schemas may share a declaration, different ones get suffixed names), one property per definition: the emitted root type accepts a symbolic document iff every member has the type of ITS definition; second mode: a definition whose name (OrderItem / order-item / orderItem) is the Go name that the INLINE nested type Order.item gets, with independent member kinds and required flags, referenced from a property and from array items",
 		Bounds: "3 names x 5 kinds (125 assignments) quick, 4 names x 3 kinds (81) thorough; members absent/null/any JSON value",
-		Quick:  map[string]int{"GRID": 2, "GRIDMAG": 36, "NAMES": 3}, Thor: map[string]int{"GRID": 2, "GRIDMAG": 36, "NAMES": 4, "POOLKINDS": 3},
+		Quick:  map[string]int{"GRID": 2, "GRIDMAG": 36, "NAMES": 3, "N": 1}, Thor: map[string]int{"GRID": 2, "GRIDMAG": 36, "NAMES": 4, "POOLKINDS": 3, "N": 1},
 		Panic:  "inconclusive"}
 }
 
